@@ -413,6 +413,19 @@ def _compare(ctx, desc, f0, spec, ref, m, A, history):
                             else:
                                 continue
                             break
+                    # a request that mixes stored spikes with one that is NOT stored but lies between stored ids: the answer comes
+                    # from the raw data (judged when the store carries the unit factor 1, where both sources agree)
+                    inner_missing = [s_ for s_ in range(int(sid.min()) + 1, int(sid.max())) if s_ not in set(sid.tolist())]
+                    if inner_missing and ref['store']['factor'] in (1, 1.0) and A is not None and spec.spike_samples.max() < A.shape[0]:
+                        mix = np.array(sorted([int(sid.min()), inner_missing[len(inner_missing) // 2], int(sid.max())]))
+                        rw = call(m.get_waveforms, mix, np.array(allch))
+                        ctx.mon('store_mixed_requests')
+                        if rw.ok and rw.value is not None and np.asarray(rw.value).shape == (3, nsw, len(allch)):
+                            e_ = window(A, spec.spike_samples[int(mix[1])], nsw, allch).astype(np.float64)
+                            if not np.allclose(np.asarray(rw.value)[1], e_, rtol=1e-6, atol=1e-6):
+                                V('store_waveforms', 'get_waveforms(%r): spike %d is not in the store; its window must come from the raw data' % (mix.tolist(), mix[1]))
+                        elif not rw.ok:
+                            V('store_waveforms', 'get_waveforms on stored and not stored spikes raised %r' % (rw.exc,))
                     for req in (own[::-1], own[1:] + own[:1], own[::-1] + [c for c in range(spec.n_channels) if c not in own][:1]):
                         if not req:
                             continue
